@@ -3,6 +3,8 @@
 // Injected into package zerolog at check time (overlay); not part of rs/zerolog.
 package zerolog
 
+import "sync"
+
 // VerifDrainEventPool takes n events out of the event pool and reports how many of them are the SAME object
 // as an earlier one (an object that was put back more than once), then puts each distinct object back once.
 func VerifDrainEventPool(n int) int {
@@ -22,4 +24,12 @@ func VerifDrainEventPool(n int) int {
 		eventPool.Put(e)
 	}
 	return dups
+}
+
+// VerifC06FreshPools replaces the event and array pools by empty ones (same New functions as event.go / array.go):
+// what a call chain renders right after it is what the chain produces when run alone, with no pool history.
+// Only called while no goroutine is logging.
+func VerifC06FreshPools() {
+	eventPool = &sync.Pool{New: func() interface{} { return &Event{buf: make([]byte, 0, 500)} }}
+	arrayPool = &sync.Pool{New: func() interface{} { return &Array{buf: make([]byte, 0, 500)} }}
 }
